@@ -460,6 +460,21 @@ fn rdata_for(rtype: u16, class: u16, sel: u16) -> Vec<u8> {
             v.extend_from_slice(names[pick(sel, 4)]);
             v
         }
+        // an unknown type: mostly tiny RDATA, sometimes RDATA at the sizes where length fields
+        // change width (127/128, 255/256, 16383/16384, 32767/32768, 65535)
+        99 => match sel % 40 {
+            0 => vec![b'q'; 127],
+            1 => vec![b'q'; 128],
+            2 => vec![b'r'; 255],
+            3 => vec![b'r'; 256],
+            4 => vec![b's'; 16383],
+            5 => vec![b's'; 16384],
+            6 => vec![b't'; 32767],
+            7 => vec![b't'; 32768],
+            8 => vec![b'u'; 40000],
+            9 => vec![b'v'; 65535],
+            _ => vec![1, b'x' + (sel % 3) as u8],
+        },
         _ => vec![1, b'x' + (sel % 3) as u8],
     }
 }
